@@ -169,6 +169,8 @@ class SX:
         if t in ('var', 'evalvar'): return '(var %s)' % e[1]
         if t == 'func': return '(func %d)' % self.fd(e[1])
         if t == 'log': return '(log %s)' % self.e(e[1])
+        if t == 'un' and e[1] == 'typeof' and e[2][0] == 'evalvar':
+            return '(un typeof (comma (undef) (var %s)))' % e[2][1]      # an ordinary read (throws if unresolvable)
         if t == 'un': return '(un %s %s)' % (e[1], self.e(e[2]))
         if t in ('bin', 'logic'): return '(%s %s %s %s)' % (t, e[1], self.e(e[2]), self.e(e[3]))
         if t == 'cond': return '(cond %s %s %s)' % (self.e(e[1]), self.e(e[2]), self.e(e[3]))
@@ -1695,3 +1697,32 @@ def gen_with_pair(rng):
         src = 'function F(p) { %s %s %s %s return p; } log(F(5));' % (' '.join(decls), obj, w, tail)
         progs.append(src)
     return progs[0], progs[1]
+
+
+def explicit_undefined_before_jumps(x):
+    """`if (c) break;`  ==>  `if (c) { void 0; break; }`   (and the same inside the blocks of an if-branch when only
+    empty-valued statements precede the jump): an `if` turns the empty value of a jump into undefined anyway, so
+    the explicit `void 0;` keeps the semantics -- and makes goja record that undefined."""
+    EMPTYV = ('empty', 'decl', 'fdecl')
+
+    def fix_branch(b):
+        if b[0] in ('break', 'continue'):
+            return ('block', [('expr', ('un', 'void', ('num', 0))), b])
+        if b[0] == 'block':
+            out = []
+            for st in b[1]:
+                if st[0] in ('break', 'continue') and all(o[0] in EMPTYV for o in out):
+                    out.append(('expr', ('un', 'void', ('num', 0))))
+                out.append(st)
+            return ('block', out)
+        return b
+    if isinstance(x, list):
+        return [explicit_undefined_before_jumps(y) for y in x]
+    if isinstance(x, dict):
+        return {k: explicit_undefined_before_jumps(v) if k in ('body', 'params') else v for k, v in x.items()}
+    if not isinstance(x, tuple) or not x:
+        return x
+    y = tuple(explicit_undefined_before_jumps(z) if isinstance(z, (tuple, list, dict)) else z for z in x)
+    if y[0] == 'if' and len(y) == 4:
+        return ('if', y[1], fix_branch(y[2]), fix_branch(y[3]))
+    return y
